@@ -262,3 +262,16 @@ func SortedKeys(m map[string]int) []string {
 	sort.Strings(ks)
 	return ks
 }
+
+// Perm returns a seeded permutation of 0..n-1.
+func (r *Rand) Perm(n int) []int {
+	p := make([]int, n)
+	for i := range p {
+		p[i] = i
+	}
+	for i := n - 1; i > 0; i-- {
+		j := r.Intn(i + 1)
+		p[i], p[j] = p[j], p[i]
+	}
+	return p
+}
